@@ -124,6 +124,15 @@ func c09Alphabet(cfg c09Cfg) []c09Op {
 		upd = []pr{{c09TConn, c09TTemp}, {c09TTemp, c09TZero}, {c09TTemp, c09TConn}, {c09TTemp, c09TTemp}}
 		recT = []int{c09TTemp}
 	}
+	if cfg.alphabet == "frac" { // fractional clock: the advances that matter, few operations
+		sets = []int{0, 5}
+		addT = []int{c09TTemp}
+		setT = []int{c09TZero, c09TTemp}
+		upd = []pr{{c09TTemp, c09TTemp}}
+		recSets = []int{0}
+		recT = []int{c09TTemp}
+		adv = []int{0, 4} // 1 m, 1 m 59.5 s
+	}
 	if full {
 		sets = []int{0, 1, 2, 3, 4, 5, 6, 7, 8, 9}
 		addT = []int{c09TNeg, c09TZero, c09TTemp, c09TRC, c09TConn, c09TPerm}
@@ -747,6 +756,16 @@ func c09Configs() []c09Cfg {
 		classes = []cls{{1, "full", 3}, {2, "core", 3}, {2, "mini", 4}, {1, "core", 6}}
 	}
 	var out []c09Cfg
+	// the clock between two whole seconds (small searches, first: a deadline must not starve them)
+	for _, cache := range []uint{0, 8} {
+		for _, la := range []bool{false, true} {
+			d := 3
+			if vrep.Thorough() {
+				d = 4
+			}
+			out = append(out, c09Cfg{peers: 1, cap: 0, cache: cache, lookahead: la, alphabet: "frac", depth: d, frac: true})
+		}
+	}
 	for _, c := range classes {
 		for _, cap := range []int{0, 2} {
 			for _, cache := range []uint{0, 8} {
